@@ -49,6 +49,7 @@ E_EXTRA = [
     dict(k='emit', event=0, sender=1, single=True, args=[], kw=[['single_', 4]]),
     dict(k='emit', event=1, sender=0, single=True),
     dict(k='unconnect', items=[{'obj': 1}]),
+    dict(k='exit', exc=True),               # the silent block is left through an exception
 ]
 R_ALPHA = [dict(k='inc'), dict(k='complete'), dict(k='reset', m=None), dict(k='reset', m=1), dict(k='reset', m=2),
            dict(k='reset', m=0), dict(k='set', v=0), dict(k='set', v=1), dict(k='set', v=2), dict(k='set', v=3),
@@ -190,7 +191,14 @@ def impl(case):
                 cm.__enter__()
                 cms.append(cm)
             elif k == 'exit':
-                cms.pop().__exit__(None, None, None)
+                if o.get('exc'):
+                    # the body of `with ev.silent():` raised: Python hands the exception to the context manager,
+                    # which must restore the flag and let the exception through (the model's exitSilent)
+                    e = ValueError('raised inside the silent block')
+                    if cms.pop().__exit__(ValueError, e, None):
+                        raise AssertionError('silent() swallowed an exception raised inside the block')
+                else:
+                    cms.pop().__exit__(None, None, None)
             elif k == 'emit':
                 del log[:]
                 sent = sender_obj(o['sender'])
@@ -373,6 +381,8 @@ def tally(rep, case, impl_res, ans):
                 d += 1; mx = max(mx, d)
             elif o['k'] == 'exit':
                 d -= 1
+                if o.get('exc'):
+                    rep.count('silent_block_left_through_exception')
             elif o['k'] == 'set_silent' and d > 0:
                 inside = True
             elif o['k'] == 'connect' and o.get('fname') in ('spam', 'on_'):
@@ -419,6 +429,10 @@ def gen(tier, rng):
                 nemit += 1
                 yield dict(p=PID, op='emitter', ops=[dict(o) for o in ops], senders=['plain', 'falsy', 'mixed'][nemit % 3],
                            connect_style=['direct', 'decorator_args'][(nemit // 3) % 2])
+                if any(o['k'] == 'exit' for o in ops):
+                    # the same history with every silent block left through an exception
+                    yield dict(p=PID, op='emitter', ops=[dict(o, exc=True) if o['k'] == 'exit' else dict(o) for o in ops],
+                               senders=['plain', 'falsy', 'mixed'][nemit % 3], connect_style='direct')
     for L in range(1, LR + 1):
         for ops in itertools.product(R_ALPHA, repeat=L):
             yield dict(p=PID, op='reporter', ops=[dict(o) for o in ops])
